@@ -2515,17 +2515,35 @@ class DiskObjectStore(PackBasedObjectStore):
         except FileNotFoundError:
             pass
 
+        bin_prefix = (
+            binascii.unhexlify(prefix)
+            if len(prefix) % 2 == 0
+            else binascii.unhexlify(prefix[:-1])
+        )
+        disappeared = False
         for p in self.packs:
-            bin_prefix = (
-                binascii.unhexlify(prefix)
-                if len(prefix) % 2 == 0
-                else binascii.unhexlify(prefix[:-1])
-            )
-            for bin_sha in p.index.iter_prefix(bin_prefix):
-                sha = sha_to_hex(bin_sha)
+            try:
+                shas = [sha_to_hex(b) for b in p.index.iter_prefix(bin_prefix)]
+            except PackFileDisappeared as exc:
+                # removed by a concurrent repack; what it held is in a pack
+                # that the rescan below picks up
+                self._evict_pack(exc.obj)
+                disappeared = True
+                continue
+            for sha in shas:
                 if sha.startswith(prefix) and sha not in seen:
                     seen.add(sha)
                     yield sha
+        if disappeared:
+            for p in self._update_pack_cache():
+                try:
+                    shas = [sha_to_hex(b) for b in p.index.iter_prefix(bin_prefix)]
+                except PackFileDisappeared:
+                    continue
+                for sha in shas:
+                    if sha.startswith(prefix) and sha not in seen:
+                        seen.add(sha)
+                        yield sha
         for alternate in self.alternates:
             for sha in alternate.iter_prefix(prefix):
                 if sha not in seen:
